@@ -264,8 +264,13 @@ pub enum Ctx {
 
 /// Type of a whole mirror AST per the specification; `Err` describes the first rejection.
 /// Key/threshold arity limits are part of the spec's fragment validity and are checked here.
-pub fn type_of(n: &Node, ctx: Ctx) -> Result<T, String> {
+pub fn type_of(n: &Node, ctx: Ctx) -> Result<T, String> { type_of_ex(n, ctx, true) }
+
+/// `d_unit_in_tap = false` gives the library's documented conservative variant in which `d:`
+/// is never `u` (2022-04-20 advisory), in every context.
+pub fn type_of_ex(n: &Node, ctx: Ctx, d_unit_in_tap: bool) -> Result<T, String> {
     let tap = ctx == Ctx::Tap;
+    let tapd = tap && d_unit_in_tap;
     let rej = |what: &str, n: &Node| format!("{}: {}", what, super::ast::print(n, false));
     match n {
         Node::True => Ok(leaf_true()),
@@ -287,26 +292,26 @@ pub fn type_of(n: &Node, ctx: Ctx) -> Result<T, String> {
             }
         }
         Node::Sha256(_) | Node::Hash256(_) | Node::Ripemd160(_) | Node::Hash160(_) => Ok(leaf_hash()),
-        Node::Alt(x) => unary(Frag::WrapA, type_of(x, ctx)?, tap).ok_or_else(|| rej("a:", n)),
-        Node::Swap(x) => unary(Frag::WrapS, type_of(x, ctx)?, tap).ok_or_else(|| rej("s:", n)),
-        Node::Check(x) => unary(Frag::WrapC, type_of(x, ctx)?, tap).ok_or_else(|| rej("c:", n)),
-        Node::DupIf(x) => unary(Frag::WrapD, type_of(x, ctx)?, tap).ok_or_else(|| rej("d:", n)),
-        Node::Verify(x) => unary(Frag::WrapV, type_of(x, ctx)?, tap).ok_or_else(|| rej("v:", n)),
-        Node::NonZero(x) => unary(Frag::WrapJ, type_of(x, ctx)?, tap).ok_or_else(|| rej("j:", n)),
-        Node::ZeroNotEqual(x) => unary(Frag::WrapN, type_of(x, ctx)?, tap).ok_or_else(|| rej("n:", n)),
-        Node::AndV(x, y) => binary(Frag::AndV, type_of(x, ctx)?, type_of(y, ctx)?).ok_or_else(|| rej("and_v", n)),
-        Node::AndB(x, y) => binary(Frag::AndB, type_of(x, ctx)?, type_of(y, ctx)?).ok_or_else(|| rej("and_b", n)),
-        Node::OrB(x, y) => binary(Frag::OrB, type_of(x, ctx)?, type_of(y, ctx)?).ok_or_else(|| rej("or_b", n)),
-        Node::OrD(x, y) => binary(Frag::OrD, type_of(x, ctx)?, type_of(y, ctx)?).ok_or_else(|| rej("or_d", n)),
-        Node::OrC(x, y) => binary(Frag::OrC, type_of(x, ctx)?, type_of(y, ctx)?).ok_or_else(|| rej("or_c", n)),
-        Node::OrI(x, y) => binary(Frag::OrI, type_of(x, ctx)?, type_of(y, ctx)?).ok_or_else(|| rej("or_i", n)),
+        Node::Alt(x) => unary(Frag::WrapA, type_of_ex(x, ctx, d_unit_in_tap)?, tap).ok_or_else(|| rej("a:", n)),
+        Node::Swap(x) => unary(Frag::WrapS, type_of_ex(x, ctx, d_unit_in_tap)?, tap).ok_or_else(|| rej("s:", n)),
+        Node::Check(x) => unary(Frag::WrapC, type_of_ex(x, ctx, d_unit_in_tap)?, tap).ok_or_else(|| rej("c:", n)),
+        Node::DupIf(x) => unary(Frag::WrapD, type_of_ex(x, ctx, d_unit_in_tap)?, tapd).ok_or_else(|| rej("d:", n)),
+        Node::Verify(x) => unary(Frag::WrapV, type_of_ex(x, ctx, d_unit_in_tap)?, tap).ok_or_else(|| rej("v:", n)),
+        Node::NonZero(x) => unary(Frag::WrapJ, type_of_ex(x, ctx, d_unit_in_tap)?, tap).ok_or_else(|| rej("j:", n)),
+        Node::ZeroNotEqual(x) => unary(Frag::WrapN, type_of_ex(x, ctx, d_unit_in_tap)?, tap).ok_or_else(|| rej("n:", n)),
+        Node::AndV(x, y) => binary(Frag::AndV, type_of_ex(x, ctx, d_unit_in_tap)?, type_of_ex(y, ctx, d_unit_in_tap)?).ok_or_else(|| rej("and_v", n)),
+        Node::AndB(x, y) => binary(Frag::AndB, type_of_ex(x, ctx, d_unit_in_tap)?, type_of_ex(y, ctx, d_unit_in_tap)?).ok_or_else(|| rej("and_b", n)),
+        Node::OrB(x, y) => binary(Frag::OrB, type_of_ex(x, ctx, d_unit_in_tap)?, type_of_ex(y, ctx, d_unit_in_tap)?).ok_or_else(|| rej("or_b", n)),
+        Node::OrD(x, y) => binary(Frag::OrD, type_of_ex(x, ctx, d_unit_in_tap)?, type_of_ex(y, ctx, d_unit_in_tap)?).ok_or_else(|| rej("or_d", n)),
+        Node::OrC(x, y) => binary(Frag::OrC, type_of_ex(x, ctx, d_unit_in_tap)?, type_of_ex(y, ctx, d_unit_in_tap)?).ok_or_else(|| rej("or_c", n)),
+        Node::OrI(x, y) => binary(Frag::OrI, type_of_ex(x, ctx, d_unit_in_tap)?, type_of_ex(y, ctx, d_unit_in_tap)?).ok_or_else(|| rej("or_i", n)),
         Node::AndOr(x, y, z) => {
-            and_or(type_of(x, ctx)?, type_of(y, ctx)?, type_of(z, ctx)?).ok_or_else(|| rej("andor", n))
+            and_or(type_of_ex(x, ctx, d_unit_in_tap)?, type_of_ex(y, ctx, d_unit_in_tap)?, type_of_ex(z, ctx, d_unit_in_tap)?).ok_or_else(|| rej("andor", n))
         }
         Node::Thresh(k, subs) => {
             let mut ts = Vec::new();
             for s in subs {
-                ts.push(type_of(s, ctx)?);
+                ts.push(type_of_ex(s, ctx, d_unit_in_tap)?);
             }
             thresh(*k, &ts).ok_or_else(|| rej("thresh", n))
         }
@@ -410,3 +415,192 @@ pub fn all_types() -> Vec<Type> {
     }
     v
 }
+
+// ---------------------------------------------------------------------------------------
+// reachable types
+
+use std::collections::BTreeSet;
+use std::sync::OnceLock;
+
+pub fn to_lib(t: T) -> Option<Type> {
+    let base = match t & BASES {
+        x if x == B => Base::B,
+        x if x == V => Base::V,
+        x if x == K => Base::K,
+        x if x == W => Base::W,
+        _ => return None,
+    };
+    let input = match (t & Z != 0, t & O != 0, t & N != 0) {
+        (true, false, false) => Input::Zero,
+        (false, true, false) => Input::One,
+        (false, false, false) => Input::Any,
+        (false, true, true) => Input::OneNonZero,
+        (false, false, true) => Input::AnyNonZero,
+        _ => return None,
+    };
+    let dissat = match (t & F != 0, t & E != 0) {
+        (true, false) => Dissat::None,
+        (false, true) => Dissat::Unique,
+        (false, false) => Dissat::Unknown,
+        _ => return None,
+    };
+    Some(Type {
+        corr: Correctness { base, input, dissatisfiable: t & D != 0, unit: t & U != 0 },
+        mall: Malleability { dissat, signed: t & S != 0, non_malleable: t & M != 0 },
+    })
+}
+
+/// Least fixpoint of the given rules over the leaves (thresholds with up to 3 children).
+pub fn closure(
+    leaves: &[T],
+    unary_rules: &dyn Fn(T) -> Vec<T>,
+    binary_rules: &dyn Fn(T, T) -> Vec<T>,
+    ternary_rule: &dyn Fn(T, T, T) -> Option<T>,
+    thresh_rule: &dyn Fn(usize, &[T]) -> Option<T>,
+) -> BTreeSet<T> {
+    let mut set: BTreeSet<T> = leaves.iter().copied().collect();
+    loop {
+        let cur: Vec<T> = set.iter().copied().collect();
+        let before = set.len();
+        for &x in &cur {
+            set.extend(unary_rules(x));
+        }
+        for &x in &cur {
+            for &y in &cur {
+                set.extend(binary_rules(x, y));
+            }
+        }
+        let bdu: Vec<T> = cur.iter().copied().filter(|t| has(*t, B | D | U)).collect();
+        for &x in &bdu {
+            for &y in &cur {
+                for &z in &cur {
+                    if (y & BASES) != (z & BASES) {
+                        continue;
+                    }
+                    if let Some(r) = ternary_rule(x, y, z) {
+                        set.insert(r);
+                    }
+                }
+            }
+        }
+        let wdu: Vec<T> = cur.iter().copied().filter(|t| has(*t, W | D | U)).collect();
+        for &a in &bdu {
+            if let Some(r) = thresh_rule(1, &[a]) {
+                set.insert(r);
+            }
+            for &b2 in &wdu {
+                for k in 1..=2 {
+                    if let Some(r) = thresh_rule(k, &[a, b2]) {
+                        set.insert(r);
+                    }
+                }
+                for &c in &wdu {
+                    for k in 1..=3 {
+                        if let Some(r) = thresh_rule(k, &[a, b2, c]) {
+                            set.insert(r);
+                        }
+                    }
+                }
+            }
+        }
+        if set.len() == before {
+            return set;
+        }
+    }
+}
+
+fn leaves_all() -> Vec<T> {
+    vec![leaf_true(), leaf_false(), leaf_pk_k(), leaf_pk_h(), leaf_time(), leaf_hash(), leaf_multi(), leaf_multi_a()]
+}
+
+/// Types some fragment can have according to the specification (either context).
+pub fn reachable_spec() -> &'static BTreeSet<T> {
+    static R: OnceLock<BTreeSet<T>> = OnceLock::new();
+    R.get_or_init(|| {
+        closure(
+            &leaves_all(),
+            &|x| {
+                let mut v = Vec::new();
+                for f in [Frag::WrapA, Frag::WrapS, Frag::WrapC, Frag::WrapD, Frag::WrapV, Frag::WrapJ, Frag::WrapN] {
+                    v.extend(unary(f, x, false));
+                    v.extend(unary(f, x, true));
+                }
+                v
+            },
+            &|x, y| {
+                let mut v = Vec::new();
+                for f in [Frag::AndV, Frag::AndB, Frag::OrB, Frag::OrD, Frag::OrC, Frag::OrI] {
+                    v.extend(binary(f, x, y));
+                }
+                v
+            },
+            &and_or,
+            &thresh,
+        )
+    })
+}
+
+/// Types some fragment can have according to the library's own rules (as spec bits).
+pub fn reachable_lib() -> &'static BTreeSet<T> {
+    static R: OnceLock<BTreeSet<T>> = OnceLock::new();
+    R.get_or_init(|| {
+        let l = |r: Result<Type, miniscript::miniscript::types::ErrorKind>| r.ok().map(|t| from_lib(&t));
+        let leaves: Vec<T> = [
+            Type::TRUE,
+            Type::FALSE,
+            Type::pk_k(),
+            Type::pk_h(),
+            Type::time(),
+            Type::hash(),
+            Type::multi(),
+            Type::multi_a(),
+            Type::sortedmulti(),
+            Type::sortedmulti_a(),
+        ]
+        .iter()
+        .map(from_lib)
+        .collect();
+        closure(
+            &leaves,
+            &|x| {
+                let mut v = Vec::new();
+                if let Some(t) = to_lib(x) {
+                    v.extend(l(t.cast_alt()));
+                    v.extend(l(t.cast_swap()));
+                    v.extend(l(t.cast_check()));
+                    v.extend(l(t.cast_dupif()));
+                    v.extend(l(t.cast_verify()));
+                    v.extend(l(t.cast_nonzero()));
+                    v.extend(l(t.cast_zeronotequal()));
+                    v.extend(l(t.cast_true()));
+                    v.extend(l(t.cast_likely()));
+                    v.extend(l(t.cast_unlikely()));
+                }
+                v
+            },
+            &|x, y| {
+                let mut v = Vec::new();
+                if let (Some(a), Some(b2)) = (to_lib(x), to_lib(y)) {
+                    v.extend(l(Type::and_v(a, b2)));
+                    v.extend(l(Type::and_b(a, b2)));
+                    v.extend(l(Type::or_b(a, b2)));
+                    v.extend(l(Type::or_d(a, b2)));
+                    v.extend(l(Type::or_c(a, b2)));
+                    v.extend(l(Type::or_i(a, b2)));
+                }
+                v
+            },
+            &|x, y, z| match (to_lib(x), to_lib(y), to_lib(z)) {
+                (Some(a), Some(b2), Some(c)) => l(Type::and_or(a, b2, c)),
+                _ => None,
+            },
+            &|k, subs| {
+                let ts: Option<Vec<Type>> = subs.iter().map(|s| to_lib(*s)).collect();
+                ts.and_then(|ts| l(Type::threshold(k, ts.iter())))
+            },
+        )
+    })
+}
+
+/// The domain on which property letters are compared: types reachable under either rule set.
+pub fn meaningful(t: T) -> bool { reachable_spec().contains(&t) || reachable_lib().contains(&t) }
